@@ -56,7 +56,7 @@ func callsNamed(in ssa.Instruction, name string) bool {
 func c16(c *core.Check) {
 	p := c.Prog
 	c.Explain = "Structural necessary conditions of CSS 2.1 Appendix E painting order, decided on SSA: the steps of drawStackingContext occur in the Appendix E order on every path (must-precede on the reads of the context's lists and on the drawing calls), background precedes border wherever both are drawn, outlines come after the content; child contexts are partitioned by the sign of z-index and the negative/positive lists are sorted by a stable sort with a strict comparison on z-index; a box starts a stacking context exactly when positioned with non-auto z-index, opacity<1, transformed or overflow!=visible. The dispatch of boxes into the block/float/cell lists is not decided."
-	rArgs := c.Rule("R4", "no call passes two same-typed arguments under each other's parameter names (swapped arguments): every pair of arguments named after the callee's parameters is aligned with them", 19)
+	rArgs := c.Rule("R4", "no call passes two same-typed arguments under each other's parameter names (swapped arguments): every pair of arguments named after the callee's parameters is aligned with them", 12)
 	argNameRule(c, rArgs, "html/document", map[string]bool{"stacking.go": true, "draw.go": true}, 19)
 
 	dsc := p.Method("html/document", "drawContext", "drawStackingContext")
